@@ -21,6 +21,7 @@ CHECKS['C06'] = dict(
          "A case is non-trivial/distinct by signature (accept|reject, code, framing, frame count, CBR/VBR, padding "
          "present, size classes of first/last frame, payload offset, frame duration).",
     assumptions=COMMON_ASSUME + ["oracles/rfc_framing.h is a faithful transcription of RFC 6716 section 3 + Appendix B (trusted base)"],
+    evals_counter='parser_calls',
     runs=[
         dict(h='h_c06.c', mode='helpers', flavour='asan', n=1, shards=1),
         dict(h='h_c06.c', mode='sweep', flavour='asan', n=512, args={'quick': ['lmax=300'], 'thorough': ['lmax=1600']}),
@@ -59,13 +60,15 @@ CHECKS['C01'] = dict(
          "reaching symbol extremes random payloads do not (counted in climb_extreme_gain_reached).",
     assumptions=COMMON_ASSUME + ["oracles/rfc_framing.h decides which packets have valid framing (duration rule)",
                                  "termination is observed as bounded running time (watchdog), not proved"],
-    evals_counter=None,
+    evals_counter=['decode_calls', 'ms_decode_calls', 'climb_decodes'],
     runs=[
         dict(h='h_c01.c', mode='single', flavour='asan', n={'quick': 14000, 'thorough': 300000}),
         dict(h='h_c01.c', mode='ms', flavour='asan', n={'quick': 6000, 'thorough': 120000}),
         dict(h='h_c01.c', mode='climb', flavour='asan', n={'quick': 1600, 'thorough': 40000}, args=['iters=400']),
         dict(h='h_c01.c', mode='single', flavour='asan-fixed', n={'quick': 6000, 'thorough': 150000}),
         dict(h='h_c01.c', mode='ms', flavour='asan-fixed', n={'quick': 2000, 'thorough': 50000}),
+        dict(h='h_c01.c', mode='single', flavour='asan', n={'quick': 2000, 'thorough': 60000}, args=['cap=0']),
+        dict(h='h_c01.c', mode='single', flavour='asan', n={'quick': 2000, 'thorough': 60000}, args=['cap=2']),
     ],
     min_nontrivial={'quick': 1500, 'thorough': 3000},
 )
@@ -83,11 +86,15 @@ CHECKS['C02'] = dict(
          "VBR/FEC/DTX flags).",
     assumptions=COMMON_ASSUME + ["'frozen RFC 6716 reference decoder' = /verif/ref source snapshot of the pinned commit b5b845fb built with clang, portable C; conformance defects already in that commit are invisible",
                                  "oracles/rfc_framing.h decides packet validity"],
+    evals_counter=['encode_calls', 'ms_encode_calls'],
     runs=[
         dict(h='h_c02.c', mode='single', flavour='asan', ref='float', n={'quick': 1600, 'thorough': 40000}),
         dict(h='h_c02.c', mode='ms', flavour='asan', ref='float', n={'quick': 500, 'thorough': 12000}),
         dict(h='h_c02.c', mode='single', flavour='fuzzing', ref='float', n={'quick': 800, 'thorough': 20000}, defs=['-DFUZZING']),
         dict(h='h_c02.c', mode='single', flavour='asan-fixed', ref='float', n={'quick': 600, 'thorough': 20000}),
+        dict(h='h_c02.c', mode='single', flavour='asan', ref='float', n={'quick': 300, 'thorough': 10000}, args=['cap=0']),
+        dict(h='h_c02.c', mode='single', flavour='asan', ref='float', n={'quick': 300, 'thorough': 10000}, args=['cap=3']),
+        dict(h='h_c02.c', mode='single', flavour='asan-fixed', ref='float', n={'quick': 300, 'thorough': 10000}, args=['cap=1']),
     ],
     min_nontrivial={'quick': 1500, 'thorough': 3000},
     min_counters={'quick': {'packets_with_range': 20000}, 'thorough': {'packets_with_range': 500000}},
@@ -104,7 +111,7 @@ CHECKS['C05'] = dict(
          "bitrate kind, size-clipped-high/low, DTX, tiny buffer, TOC config, length class).",
     assumptions=COMMON_ASSUME + ["CVBR tolerances are the committed constants in calib/c05.json (measured on the pinned tree), one TOC byte per packet is not charged to the rate target",
                                  "multistream CBR total is accepted as floor or round of bitrate*duration/8 (both equal for the exact cases)"],
-    evals_counter=None,
+    evals_counter=['encode_calls', 'ms_encode_calls', 'cvbr_streams'],
     runs=[
         dict(h='h_c05.c', mode='cbr', flavour='asan', n={'quick': 2400, 'thorough': 60000}),
         dict(h='h_c05.c', mode='cbrms', flavour='asan', n={'quick': 1200, 'thorough': 30000}),
@@ -169,7 +176,7 @@ CHECKS['C19'] = dict(
          "class / TOC config, call kind, transition, gain class, saturation seen, rate, channels).",
     assumptions=COMMON_ASSUME + ["float build: the gained output must equal gain-free output x one float constant (<= 4e-7 relative), the constant within 2e-5 of 10^(g/5120) (celt_exp2 accuracy, measured maximum is in the evidence)",
                                  "fixed-point build: gained sample within 1 LSB + 0.2% of sat16(gain-free x 10^(g/5120))"],
-    evals_counter=None,
+    evals_counter=['clip_frames', 'gain_calls', 'msgain_frames'],
     runs=[
         dict(h='h_c19.c', mode='clip', flavour='asan', n={'quick': 60000, 'thorough': 3000000}),
         dict(h='h_c19.c', mode='gain', flavour='asan', n={'quick': 1600, 'thorough': 40000}),
@@ -193,7 +200,7 @@ CHECKS['C13'] = dict(
          "expert duration, rate, application, depth, signal / call kind, gain, saturation seen / family, channels).",
     assumptions=COMMON_ASSUME + ["concealment and FEC calls return before the soft clipper: for them the 16-bit output may be either the hard-saturated or the soft-clipped rounding of the float twin (both accepted, counted separately)",
                                  "projection 16-bit output under saturation may be anywhere between saturating-accumulate and saturate-at-end; a wrap (off by ~65536) is rejected"],
-    evals_counter=None,
+    evals_counter=['enc_triples', 'encms_triples', 'dec_triples', 'msdec_triples', 'proj_frames'],
     runs=[
         dict(h='h_c13.c', mode='enc', flavour='asan', n={'quick': 1600, 'thorough': 40000}),
         dict(h='h_c13.c', mode='enc', flavour='asan-fixed', n={'quick': 600, 'thorough': 15000}),
@@ -221,7 +228,7 @@ CHECKS['C12'] = dict(
          "multistream decoders: zero vs poisoned memory, clone, reset vs fresh. Runs are repeated with the RTCD level capped (hook H1) and "
          "under MemorySanitizer. Distinct = (TOC, stage [twin/clone/reset], original freed, rate, application, signal / call kind, API, burst).",
     assumptions=COMMON_ASSUME + ["'same settings' for reset-equivalence = the ctl calls the user made, replayed on the new object"],
-    evals_counter=None,
+    evals_counter=['enc_pairs', 'enc_reset_pairs', 'dec_pairs', 'dec_reset_pairs', 'ms_enc_pairs', 'ms_dec_pairs'],
     runs=[
         dict(h='h_c12.c', mode='enc', flavour='prod', n={'quick': 1600, 'thorough': 40000}),
         dict(h='h_c12.c', mode='enc', flavour='asan', n={'quick': 480, 'thorough': 12000}),
@@ -255,7 +262,7 @@ CHECKS['C10'] = dict(
          "streams, coupled, channels, call kind, frame size, rates / family, channels).",
     assumptions=COMMON_ASSUME + ["oracles/rfc_framing.h decides stream boundaries", "projection (family 3) stream counts are only required to carry every channel; RFC 8486 prescribes no stream count for it",
                                  "round-trip level within 1.5 dB, correlation >= 0.9, separation >= 15 dB at 64 kb/s per channel (measured minima are in the evidence)"],
-    evals_counter=None,
+    evals_counter=['ms_decode_calls', 'ms_encode_calls', 'layout_decoder_creates', 'layout_encoder_creates', 'layout_family_creates', 'matrix_entries_checked'],
     runs=[
         dict(h='h_c10.c', mode='layout', flavour='asan', n={'quick': 20000, 'thorough': 400000}),
         dict(h='h_c10.c', mode='dec', flavour='asan', n={'quick': 800, 'thorough': 20000}),
@@ -284,7 +291,7 @@ CHECKS['C17'] = dict(
          "exhaustive over the enumerated finite spaces (evidence counters), sampled where V > vmax.",
     assumptions=COMMON_ASSUME + ["the PVQ index functions are static: the working tree's celt/cwrs.c is compiled into the harness unit (same source, same flags)",
                                  "the cache may over-estimate by at most 1/8 bit (conservative log2), never under-estimate"],
-    evals_counter=None,
+    evals_counter=['pvq_indices_checked', 'laplace_points_checked', 'laplace_encodes_checked', 'cache_entries_checked', 'icdf_live_table_uses'],
     runs=[
         dict(h='h_c17.c', mode='pvq', flavour='asan', n=105, wraps=C17_WRAPS, args={'quick': ['vmax=300000', 'samples=3000'], 'thorough': ['vmax=16777216', 'samples=200000']}),
         dict(h='h_c17.c', mode='cache', flavour='asan', n=1, shards=1, wraps=C17_WRAPS),
@@ -311,7 +318,7 @@ CHECKS['C18'] = dict(
          "extreme and random gains. pitch: all 65536 lag indices x all contours x {8,12,16} kHz x {2,4} sub-frames. hook: the same "
          "predicates on every SILK frame decoded during hostile + normal decoding (hook H2).",
     assumptions=COMMON_ASSUME + ["bounds are the documented ones: codebook deltaMin, MAX_PREDICTION_POWER_GAIN 1e4 (2% slack for the fixed-point gain estimate), lag range 2..18 ms"],
-    evals_counter=None,
+    evals_counter=['nlsf_vectors', 'gain_chains_checked', 'gain_quant_roundtrips', 'pitch_combinations', 'hook_silk_frames_observed', 'nlsf_encodes'],
     runs=[
         dict(h='h_c18.c', mode='nlsf', flavour='asan', n=64, args={'quick': ['random=3000'], 'thorough': ['random=900000']}, wraps=C18_WRAPS),
         dict(h='h_c18.c', mode='nlsfenc', flavour='asan', n={'quick': 640, 'thorough': 16000}, wraps=C18_WRAPS),
@@ -341,7 +348,7 @@ CHECKS['C11'] = dict(
     assumptions=COMMON_ASSUME + ["packets with no coded audio (every frame <= 1 byte: DTX and the low-budget fallback) are exempt from the channel / bandwidth / mode clauses and do not count towards the three-packet latency",
                                  "OPUS_SET_APPLICATION may be refused after the first frame (then nothing may change)",
                                  "AUTO / MAX bitrate read-back is accepted for any legal frame size (the resolution uses the last coded frame size)"],
-    evals_counter=None,
+    evals_counter=['ctl_sets', 'msctl_sets', 'dec_ctl_calls', 'create_calls', 'alloc_fault_runs', 'honour_packets'],
     runs=[
         dict(h='h_c11.c', mode='ctl', flavour='asan', n={'quick': 1600, 'thorough': 40000}, wraps=C11_WRAPS),
         dict(h='h_c11.c', mode='msctl', flavour='asan', n={'quick': 800, 'thorough': 20000}, wraps=C11_WRAPS),
@@ -390,7 +397,7 @@ CHECKS['C15'] = dict(
          "fixed build byte-identical packets and PCM, float build every decoder level reproduces every encoder level's final range; also "
          "under upstream's OPUS_CHECK_ASM self-check build. Distinct = (cap, rate, channels, signal / length residue, offsets, style / TOC).",
     assumptions=COMMON_ASSUME + ["only feature levels the sandbox CPU supports are exercised (it has AVX2: all five)", "NaN/Inf inputs are excluded for float kernels (the reassociation bound is undefined)"],
-    evals_counter=None,
+    evals_counter=['live_kernel_comparisons', 'direct_kernel_comparisons', 'codec_level_frames'],
     runs=[
         dict(h='h_c15.c', mode='live', flavour='asan', n={'quick': 320, 'thorough': 8000}, args=['cap=4'], wraps=C15_FLOAT),
         dict(h='h_c15.c', mode='live', flavour='asan', n={'quick': 320, 'thorough': 8000}, args=['cap=3'], wraps=C15_FLOAT),
@@ -426,7 +433,7 @@ CHECKS['C20'] = dict(
     assumptions=COMMON_ASSUME + ["'active' input is a loud, strongly modulated harmonic signal and 'inactive' input is exact zeros, so the ground truth does not depend on a detector's judgement",
                                  "<=2-byte packets caused by a budget below 3 bytes per frame are not DTX packets (precondition of the clause)",
                                  "gap level bound 0.02 RMS after 700 ms of silence; resumed audio within -12..+6 dB of the input level (sanity bounds, measured extremes are in the evidence)"],
-    evals_counter=None,
+    evals_counter='packets',
     runs=[
         dict(h='h_c20.c', mode='sched', flavour='prod', n={'quick': 3200, 'thorough': 60000}),
         dict(h='h_c20.c', mode='sched', flavour='asan', n={'quick': 480, 'thorough': 12000}),
@@ -476,7 +483,7 @@ CHECKS['C03'] = dict(
                                  "oracles/rfc_compare.h is a faithful port of opus_compare.c (cross-checked against the tool in mode 'metric')",
                                  "PCM reference for the fixed-point tree builds is the frozen snapshot built fixed-point (the reference implementation's own fixed-point configuration); final ranges are always compared with the float reference",
                                  "the RFC procedure against the 48 kHz stereo reference is informational: the pinned reference decoder itself does not pass it at lower output rates on arbitrary low-rate mode-switching streams"],
-    evals_counter='streams_compared',
+    evals_counter='packets_compared',
     runs=[
         dict(h='h_c03.c', mode='metric', flavour='prod', ref='both', n={'quick': 48, 'thorough': 400}),
         dict(h='h_c03.c', mode='stream', flavour='prod', ref='both', n={'quick': 480, 'thorough': 6000}, args={'quick': ['configs=3'], 'thorough': ['configs=10']}),
@@ -502,7 +509,7 @@ CHECKS['C04'] = dict(
          "frame size, rate, channels, identity stimulus, sample formats, signal, application).",
     assumptions=COMMON_ASSUME + ["fidelity bounds are relative to the frozen build of the same arithmetic on the identical input (calib/c04.json margins); perceptual quality is out of scope",
                                  "the delay estimator is applied to noise-like / speech-like stimuli where the frozen build itself reaches 12 dB SNR and its own estimate is within tolerance"],
-    evals_counter='roundtrips',
+    evals_counter=['roundtrips', 'ms_roundtrips'],
     runs=[
         dict(h='h_c04.c', mode='rt', flavour='prod', ref='both', n={'quick': 2400, 'thorough': 40000}),
         dict(h='h_c04.c', mode='rt', flavour='prod-fixed', ref='both', n={'quick': 1200, 'thorough': 20000}),
